@@ -4,7 +4,7 @@ import nodelib
 from nodelib import SEP, hx
 
 ID = "C17"
-GEN_FILES = ["PidConsts.v", "ControlTable.v", "Tags.v"]
+GEN_FILES = ["PidConsts.v", "ControlTable.v", "Tags.v", "LockScope.v"]
 RULE = ("scripts on a connected node: 1..12 remote calls started as concurrent tasks (long timeout, or short timeout that is let expire), the "
         "peer's replies in any order, duplicated, addressed to calls that do not exist, to calls that already returned, and arriving after "
         "the timeout; calls made after the peer closed the stream or sent an over-long length prefix (no connection); observations of every "
